@@ -235,6 +235,9 @@ def _dec(sig):
     return [NAN if (v is None or v == "NaN") else float(v) for v in sig]
 
 
+_DECOYS = []
+
+
 def _make_kernel(kspec):
     import tracklib.core.kernel as K
     if kspec["type"] == "Dirac":
@@ -381,7 +384,18 @@ def _apply(via, kspec, sigs):
         boundary = False
     else:
         karg = _make_kernel(kspec)
-        boundary = bool(karg.filterBoundary())
+        # the boundary setting is what the harness *set* on this kernel object (default: boundaries are copied),
+        # not what a getter says afterwards; a second kernel object with the opposite setting is configured
+        # after it and stays alive during the filtering (per-object state must not leak between kernels)
+        boundary = bool(kspec.get("boundary", False))
+        import tracklib.core.kernel as _K
+        decoy = _K.GaussianKernel(2)
+        decoy.setFilterBoundary(not boundary)
+        _DECOYS[:] = [decoy]
+        if bool(karg.filterBoundary()) != boundary:
+            return M.Raised(AssertionError("kernel.filterBoundary() returns %r after setFilterBoundary(%r) on this kernel "
+                                           "(another kernel object was configured with the opposite setting in between)"
+                                           % (karg.filterBoundary(), boundary)), "")
         if kspec["type"] == "Dirac":
             k = [0.0, 1.0, 0.0]           # the identity, whatever the length of the Dirac window
         else:
